@@ -94,7 +94,8 @@ def canon(v):
     if hasattr(v, "as_dict"):
         v = v.as_dict()
     if isinstance(v, dict):
-        return {"__map__": [[str(k), canon(x)] for k, x in v.items()]}
+        # __path__ / __orig__ ... : metadata of values loaded from their own file (strip_meta drops them in dumps)
+        return {"__map__": [[str(k), canon(x)] for k, x in v.items() if not (str(k).startswith("__") and str(k).endswith("__"))]}
     if isinstance(v, (list, tuple)):
         return [canon(x) for x in v]
     return {"__other__": type(v).__name__}
@@ -124,6 +125,9 @@ def main():
     scratch = tempfile.mkdtemp(prefix="jv_c15_")
     try:
         write_module(scratch, payload["classes"])
+        indir, outdir = os.path.join(scratch, "in"), os.path.join(scratch, "out")
+        os.mkdir(indir)
+        os.mkdir(outdir)
         sys.path.insert(0, scratch)
         import c15mod  # noqa
         import jsonargparse._link_arguments as la
@@ -159,7 +163,9 @@ def main():
                     kw["required"] = True
                 else:
                     kw["default"] = d["default"]
-                p.add_argument("--" + d["key"], **kw)
+                if d["kind"] == "class":
+                    kw["enable_path"] = True     # --c=<file holding the class spec>; the parse keeps its __path__
+                p.add_argument(*option_strings(d), **kw)
             crash = None
             for l in links:
                 src = l["src"][0] if len(l["src"]) == 1 and l.get("src_str", True) else tuple(l["src"])
@@ -174,20 +180,74 @@ def main():
                     crash = type(ex).__name__ + ": " + str(ex)[:200]
             return crash
 
-        def render_items(items):
+        def option_strings(d):
+            """first spelling --<key>; a declaration with an alias gets a second long (--<key>_alt) or short (-K) one"""
+            if d.get("alias") == "long":
+                return ["--" + d["key"], "--" + d["key"] + "_alt"]
+            if d.get("alias") == "short":
+                return ["--" + d["key"], "-" + d["key"].upper()]
+            return ["--" + d["key"]]
+
+        def render_items(items, decls, indir):
+            """["opt", key, value] first spelling; ["opt", key, value, "alt"] the second spelling of the declaration;
+            ["opt", key, value, "file"] the value is written to its own config file and the option gets the path"""
+            spell = {d["key"]: option_strings(d) for d in decls}
             out = []
-            for it in items:
-                if it[0] == "opt":
-                    out.append("--%s=%s" % (it[1], render(it[2])))
-                else:
+            for n, it in enumerate(items):
+                if it[0] != "opt":
                     out.append("--cfg=" + json.dumps(it[1]))
+                    continue
+                how = it[3] if len(it) > 3 else None
+                if how == "file":
+                    path = os.path.join(indir, "%s_%d.json" % (it[1].replace(".", "_"), n))
+                    with open(path, "w") as f:
+                        json.dump(it[2], f)
+                    out.append("--%s=%s" % (it[1], path))
+                elif how == "alt":
+                    alt = spell[it[1]][1]
+                    out += [alt + "=" + render(it[2])] if alt.startswith("--") else [alt, render(it[2])]
+                else:
+                    out.append("--%s=%s" % (it[1], render(it[2])))
             return out
+
+        def observe_save(p, cfg, outdir, obs):
+            """save() in its default multifile mode; every file it wrote is read back and put in place of the
+            reference the main file holds, so the result is comparable with dump() and no written file is left out"""
+            try:
+                main = os.path.join(outdir, "main.json")
+                p.save(cfg, main, format="json", skip_none=False, overwrite=True)
+                files = {}
+                for name in sorted(os.listdir(outdir)):
+                    with open(os.path.join(outdir, name)) as f:
+                        files[name] = json.load(f)
+                top = files.pop("main.json")
+                used = set()
+
+                def put_back(v):
+                    if isinstance(v, dict):
+                        return {k: put_back(x) for k, x in v.items()}
+                    if isinstance(v, str) and v in files:
+                        used.add(v)
+                        return files[v]
+                    return v
+
+                top = put_back(top)
+                if used != set(files):
+                    obs["save_error"] = "files written but not referenced: %s" % sorted(set(files) - used)
+                    return
+                obs["save"] = canon(top)
+                obs["save_files"] = 1 + len(files)
+            except Exception as ex:
+                obs["save_error"] = type(ex).__name__ + ": " + str(ex)[:300]
+            finally:
+                for name in os.listdir(outdir):
+                    os.remove(os.path.join(outdir, name))
 
         def one_tree(case):
             """top-level parser + two subcommands built from one specification; everything observed through the TOP parser"""
             sub = case["sub"]
             subs = ["fit", "test"]
-            obs = {"build": [], "required": [], "pre": None, "parse": None, "dump": None, "reparse": None,
+            obs = {"build": [], "required": [], "pre": None, "parse": None, "dump": None, "reparse": None, "save": None,
                    "sub_build": [], "sub_required": []}
             p = ArgumentParser(exit_on_error=False, default_env=True, env_prefix="APP")
             crash = populate(p, case["decls"], case["links"], obs["build"])
@@ -219,7 +279,7 @@ def main():
                 if case["mode"] == "object":
                     r = attempt(lambda: p.parse_object(case["obj"]))
                 else:
-                    argv = render_items(case["argv"]) + [sub["name"]] + render_items(sub["argv"])
+                    argv = render_items(case["argv"], case["decls"], indir) + [sub["name"]] + render_items(sub["argv"], sub["decls"], indir)
                     r = attempt(lambda: p.parse_args(argv))
                 state["armed"] = False
                 obs["pre"] = state["pre"]
@@ -235,6 +295,7 @@ def main():
                     if text is not None:
                         r2 = attempt(lambda: p.parse_args(["--cfg", text]))
                         obs["reparse"] = ["ok", canon_cfg(r2[1], subs)] if r2[0] == "ok" else r2
+                    observe_save(p, cfg, outdir, obs)
                 else:
                     obs["parse"] = r
             finally:
@@ -257,33 +318,11 @@ def main():
         def one(case):
             if case.get("sub"):
                 return one_tree(case)
-            obs = {"build": [], "required": [], "pre": None, "parse": None, "dump": None, "reparse": None}
+            obs = {"build": [], "required": [], "pre": None, "parse": None, "dump": None, "reparse": None, "save": None}
             p = ArgumentParser(exit_on_error=False, default_env=True, env_prefix="APP")
-            p.add_argument("--cfg", action="config")
-            for d in case["decls"]:
-                kw = {}
-                if d["kind"] == "class":
-                    kw["type"] = c15mod.Base
-                elif d["kind"] == "classlist":
-                    kw["type"] = List[c15mod.Base]
-                else:
-                    kw["type"] = tys[d["kind"]]
-                if d["required"]:
-                    kw["required"] = True
-                else:
-                    kw["default"] = d["default"]
-                p.add_argument("--" + d["key"], **kw)
-            for l in case["links"]:
-                src = l["src"][0] if len(l["src"]) == 1 and l.get("src_str", True) else tuple(l["src"])
-                fn = None if l["fn"] is None else c15mod.FUNCTIONS[l["fn"]]
-                try:
-                    p.link_arguments(src, l["tgt"], fn)
-                    obs["build"].append(0)
-                except ValueError:
-                    obs["build"].append(1)
-                except Exception as ex:
-                    obs["build"].append(3)
-                    obs["build_crash"] = type(ex).__name__ + ": " + str(ex)[:200]
+            crash = populate(p, case["decls"], case["links"], obs["build"])
+            if crash:
+                obs["build_crash"] = crash
             obs["required"] = sorted(p.required_args)
 
             env_keys = []
@@ -311,12 +350,7 @@ def main():
                 if case["mode"] == "object":
                     r = attempt(lambda: p.parse_object(case["obj"]))
                 else:
-                    argv = []
-                    for it in case["argv"]:
-                        if it[0] == "opt":
-                            argv.append("--%s=%s" % (it[1], render(it[2])))
-                        else:
-                            argv.append("--cfg=" + json.dumps(it[1]))
+                    argv = render_items(case["argv"], case["decls"], indir)
                     r = attempt(lambda: p.parse_args(argv))
                 state["armed"] = False
                 obs["pre"] = state["pre"]
@@ -332,6 +366,7 @@ def main():
                     if text is not None:
                         r2 = attempt(lambda: p.parse_args(["--cfg", text]))
                         obs["reparse"] = ["ok", canon_cfg(r2[1])] if r2[0] == "ok" else r2
+                    observe_save(p, cfg, outdir, obs)
                 else:
                     obs["parse"] = r
             finally:
